@@ -192,6 +192,7 @@ func (ad *adapter) SetLimits(pc, tot int) {
 func (ad *adapter) PagesUsed() int                      { return ad.a.VerifPagesUsed() }
 func (ad *adapter) PoolConns() int                      { n, _, _ := ad.pool.VerifStats(); return n }
 func (ad *adapter) Queued() (int, int, time.Time, bool) { return ad.pool.VerifQueued() }
+func (ad *adapter) Buffered() int                       { return ad.pool.VerifBuffered() }
 
 func init() {
 	reassembly.VerifOrder = func(keys []string) []int {
